@@ -100,6 +100,10 @@ const (
 // a second database of the same name in one process would wait for idle workers of the first.
 var dbSeq atomic.Int64
 
+// classCrossSegment marks a statement whose range spans >= 2 segments and whose answer has >= 2 slots
+// from >= 2 families (the non-trivial rule of TestQueryModelCoarseIntervals).
+const classCrossSegment = "range->=2-segments,answer->=2-families,>=2-slots"
+
 // ---- schema and history -----------------------------------------------------------------------------
 
 type fieldDef struct {
@@ -365,7 +369,7 @@ func (e *env) write(metrics []metricDef, rows []rowSpec) error {
 	byFam := map[int64][]rowSpec{}
 	var order []int64
 	for _, r := range rows {
-		f := familyOf(r.TS)
+		f := e.mdl.familyOf(r.TS)
 		if _, ok := byFam[f]; !ok {
 			order = append(order, f)
 		}
@@ -598,6 +602,28 @@ func (e *env) checkQueryWith(t failer, q mQuery, history func() string, placeOf 
 		classes = append(classes, "after-reopen")
 	}
 	classes = append(classes, fmt.Sprintf("families-in-answer=%d", len(fams)))
+	segs := map[int64]bool{}
+	for f := range fams {
+		segs[segmentOfIv(e.S, f)] = true
+	}
+	if len(segs) >= 2 {
+		classes = append(classes, "answer-from->=2-segments")
+	}
+	if rs, re, _ := e.mdl.plan(q); segmentOfIv(e.S, rs) != segmentOfIv(e.S, re) {
+		classes = append(classes, "range-spans->=2-segments")
+		if len(fams) >= 2 && nt {
+			classes = append(classes, classCrossSegment)
+		}
+	}
+	if d := q.End - q.Start; d < hourMs {
+		classes = append(classes, "range<1h")
+	} else if d < dayMs {
+		classes = append(classes, "range-1h..1d")
+	} else if d < 2*dayMs {
+		classes = append(classes, "range-1d..2d")
+	} else {
+		classes = append(classes, "range>=2d")
+	}
 	for _, it := range q.Items {
 		mm := e.mdl.Metrics[q.Metric]
 		typ := "unknown"
@@ -807,8 +833,9 @@ func genValue(t *rapid.T, label string) float64 {
 type schema struct {
 	S       int64       `json:"interval_ms"`
 	Fams    []int64     `json:"families"`
-	Slots   []int       `json:"slots"`
+	Slots   []int       `json:"slots"` // slot of a family; negative: counted from the family's end (-1 = last slot)
 	Metrics []metricDef `json:"metrics"`
+	Coarse  bool        `json:"coarse,omitempty"` // month-/year-type interval (TestQueryModelCoarseIntervals)
 }
 
 var hostPool = []string{"a1", "a2", "b1", "ab", "ba", "c"}
@@ -941,6 +968,9 @@ func (w *windowTracker) flushedAll() { w.win = map[string]*window{} }
 func genTS(t *rapid.T, sc schema) int64 {
 	fam := sc.Fams[rapid.IntRange(0, len(sc.Fams)-1).Draw(t, "fam")]
 	slot := sc.Slots[rapid.IntRange(0, len(sc.Slots)-1).Draw(t, "slotIdx")]
+	if slot < 0 {
+		slot += int((familyEndIv(sc.S, fam) + 1 - fam) / sc.S)
+	}
 	off := rapid.SampledFrom([]int64{0, 1, sc.S / 2, sc.S - 1}).Draw(t, "inSlot")
 	return fam + int64(slot)*sc.S + off
 }
@@ -963,7 +993,7 @@ func genRows(t *rapid.T, sc schema, maxRows int, wt *windowTracker) []rowSpec {
 		if ev.Known(sigWindowEnd) {
 			kept := r.Vals[:0]
 			for _, fv := range r.Vals {
-				if wt.admit(familyOf(r.TS), md.Name, r.S, fv.Field, r.TS) {
+				if wt.admit(familyOfIv(sc.S, r.TS), md.Name, r.S, fv.Field, r.TS) {
 					kept = append(kept, fv)
 				}
 			}
@@ -1075,8 +1105,30 @@ func genQuery(t *rapid.T, sc schema, written map[string]map[string]bool) mQuery 
 		}
 	}
 	// time range (second precision): all data, or cut near the generated slots
-	first, last := sc.Fams[0], sc.Fams[len(sc.Fams)-1]+hourMs-1000
-	switch rapid.IntRange(0, 4).Draw(t, "rangeKind") {
+	first, last := sc.Fams[0], familyEndIv(sc.S, sc.Fams[len(sc.Fams)-1])-999
+	rangeKind := rapid.IntRange(0, 4).Draw(t, "rangeKind")
+	if sc.Coarse {
+		rangeKind = rapid.IntRange(0, 7).Draw(t, "coarseRangeKind") + 10
+	}
+	switch rangeKind {
+	case 10, 11: // everything (>= 2 families; > 2 days for most family sets)
+		q.Start, q.End = first, last
+	case 12: // everything and up to three days around it
+		q.Start = first - int64(rapid.IntRange(0, 3*86400).Draw(t, "before"))*1000
+		q.End = last + int64(rapid.IntRange(0, 3*86400).Draw(t, "after"))*1000
+	case 13: // shorter than one hour across a family boundary
+		b := sc.Fams[rapid.IntRange(1, len(sc.Fams)-1).Draw(t, "boundary")]
+		q.Start = b - int64(rapid.IntRange(0, 40*60).Draw(t, "before"))*1000
+		q.End = b + int64(rapid.IntRange(0, 19*60).Draw(t, "after"))*1000
+	case 14: // one hour .. one day across a family boundary
+		b := sc.Fams[rapid.IntRange(1, len(sc.Fams)-1).Draw(t, "boundary")]
+		q.Start = b - int64(rapid.IntRange(3600, 20*3600).Draw(t, "before"))*1000
+		q.End = b + int64(rapid.IntRange(0, 3*3600).Draw(t, "after"))*1000
+	case 15: // from inside one family to inside a later one
+		i := rapid.IntRange(0, len(sc.Fams)-2).Draw(t, "fromFam")
+		j := rapid.IntRange(i+1, len(sc.Fams)-1).Draw(t, "toFam")
+		q.Start = familyEndIv(sc.S, sc.Fams[i]) + 1 - int64(rapid.IntRange(1, 30).Draw(t, "startSlots"))*sc.S
+		q.End = sc.Fams[j] + int64(rapid.IntRange(0, 30).Draw(t, "endSlots"))*sc.S + 1000
 	case 0, 1:
 		q.Start, q.End = first, last
 	case 2:
@@ -1092,8 +1144,11 @@ func genQuery(t *rapid.T, sc schema, written map[string]map[string]bool) mQuery 
 	}
 	// group by time(multiple of the storage interval)
 	if rapid.IntRange(0, 2).Draw(t, "ivKind") > 0 {
-		mult := rapid.SampledFrom([]int64{1, 2, 3, 6, 30, 360}).Draw(t, "ivMult")
-		q.UserIv = mult * sc.S
+		mults := []int64{1, 2, 3, 6, 30, 360}
+		if sc.Coarse {
+			mults = []int64{1, 2, 3, 6, 12, 48}
+		}
+		q.UserIv = rapid.SampledFrom(mults).Draw(t, "ivMult") * sc.S
 	}
 	return q
 }
@@ -1111,7 +1166,7 @@ func genOps(t *rapid.T, sc schema) []opSpec {
 			if written[name] == nil {
 				written[name] = map[string]bool{}
 			}
-			fam := familyOf(r.TS)
+			fam := familyOfIv(sc.S, r.TS)
 			if curFields[fam] == nil {
 				curFields[fam] = map[string]map[string]bool{}
 			}
